@@ -19,7 +19,8 @@ from ..impl import vname
 
 RULE = ('operands enumerated/sampled from the 256 functions of 3 variables '
         '(all orders; fresh and aged managers) and random functions of 4-8 '
-        'variables; a case is (order, history kind, operator alias, operand '
+        'variables; connectives interrupted by a dynamic reordering a few nodes into the call and '
+        'retried (5-7 variables); a case is (order, history kind, operator alias, operand '
         'truth tables); non-trivial = operands not both constant; distinct by '
         'that signature')
 EXHAUSTIVE = {'quick': False, 'thorough': False}
@@ -255,6 +256,61 @@ def stream_f(ctx, order, pairs_per_op, all_pairs):
     s.digest(A)
 
 
+def stream_d(ctx, nv, nops):
+    """connectives INTERRUPTED by a dynamic reordering and retried: the threshold is set so
+    that the request fires a few nodes into the call; the reordering begins with a collection
+    that frees the temporaries of the aborted attempt, the swaps re-use their numbers, and the
+    retry (and the calls after it) must not meet anything remembered for those numbers
+    (round-22 seed: the computed table of the aborted attempt kept for the retry)"""
+    rng = ctx.rng
+    names = list(range(nv))
+    order = list(names)
+    rng.shuffle(order)
+    full = (1 << (1 << nv)) - 1
+    s = ctx.session(f'D interrupted nv={nv}', full=False)
+    s.op(0, 'new', {v: l for v, l in zip(names, order)})
+    pool = []
+    for _ in range(4):
+        t = rng.getrandbits(1 << nv)
+        u = gen.build_tt(s, 0, t, names)
+        s.op(0, 'incref', u)
+        pool.append((u, t))
+    b = s.impl.mgr[0]
+    s.op(0, 'configure', True)
+    case = lambda: dict(stream=s.label, lines=list(s.lines))  # noqa: E731
+    for _ in range(nops):
+        (fa, a), (fc, c), (fd, d) = (rng.choice(pool) for _ in range(3))
+        memo = {}
+        delta = rng.choice([1, 2, 3, 4, 6, 9])
+        s.op(0, 'set_last_len', (len(b) + delta + 1) // 2)
+        if rng.random() < 0.75:
+            name = rng.choice(BIN)
+            alias = rng.choice(gen.ALIASES[name])
+            r = s.op(0, 'apply', alias, fa, fc, None)
+            e = gen.conn(name, a, c, full)
+            what = f'apply({alias!r}) interrupted after about {delta} nodes'
+        else:
+            r = s.op(0, 'ite', fa, fc, fd)
+            e = (a & c) | (~a & full & d)
+            what = f'ite interrupted after about {delta} nodes'
+        # (the order may have changed: evaluation is by name; held references are re-read below)
+        _check(ctx, s, 0, what, r, e, names, memo, case)
+        ctx.case(('D', nv, what, a, c, d), True)
+        ctx.count('op:interrupted')
+        if r is not None and rng.random() < 0.5:
+            s.op(0, 'incref', r)
+            pool.append((r, e))
+        if len(pool) > 6 and rng.random() < 0.4:
+            u, _ = pool.pop(rng.randrange(len(pool)))
+            s.op(0, 'decref', u)
+        for (u, t) in pool:
+            if abs(u) not in b._succ or _tt(b, u, names, {}) != t:
+                ctx.violation('C01:wrong-function', 'a held reference changed across an interrupted connective', case)
+                return
+    s.op(0, 'configure', False)
+    s.digest(0)
+
+
 def run(ctx):
     q = ctx.quick
     for order in (ctx.rng.sample(gen.orders(3), 1) if q else gen.orders(3)[:2]):
@@ -266,6 +322,9 @@ def run(ctx):
     stream_b(ctx, stride=17 if q else 1, ntriples=3000 if q else 200000)
     for nv in ((4, 6, 8) if q else (4, 5, 6, 7, 8, 8)):
         stream_c(ctx, nv, 40 if q else 300)
+    # (last, so that the streams above are the same cases as before for a given seed)
+    for nv in ((5, 6, 6) if q else (4, 5, 5, 6, 6, 6, 7)):
+        stream_d(ctx, nv, 40 if q else 200)
 
 
 def replay(payload):
